@@ -1,2 +1,1518 @@
-(* ConcArenaProofs.v — being written *)
+(* ConcArenaProofs.v — the storage invariant of the concurrent model (Conc.v) is preserved by
+   every step of every thread: properties C05 (concurrent storage integrity) and C09 (memory
+   limit under concurrency), for every schedule, every number of threads and every pattern of
+   spurious CAS failures.
+
+   Main results (all Qed, closed under the global context):
+     init_AInv', init_AInv      the initial state satisfies AInv' / AInv (0 < cap)
+     step_AInv' (= step_AInv)   AInv' c -> step c tid ch = Some c' -> AInv' c'
+     reachable_AInv', reachable_AInv
+     C05_exclusive, C05_no_tear, step_keeps_entries, step_keeps_bytes, C05_no_lost_block
+     C09_accounting_quiescent, no_setlimit_step, C09_cap, C09_grant_admissible_partial,
+     C09_legacy_refuted
+     AInv_not_inductive_sizes, AInv_not_inductive_pmap
+
+   REPORT on ConcInv.AInv: it holds in every reachable state (reachable_AInv) but it is NOT
+   inductive as stated; the invariant proved inductive here is
+       AInv' c := AInv c /\ Forall tspc (c_threads c) /\ pmap_safe c.
+   (1) [ai_store_pcs] only says s <> [].  Missing: what a store pc knows about the sizes it
+       carries ([spc_ok]: slen s <= next at SUsage2/SLimit2/SBcapStore, slen s <= req and
+       (k = ADoubled -> req = next) at SAllocLoad/SAllocCas, slen s <= cap at SNewBlock).
+       Without it ai_usage breaks at a successful SAllocCas .. ADoubled (grants req, books
+       next) and block_ok breaks at SNewBlock.  Witness: AInv_not_inductive_sizes.
+   (2) the PMap case of [ai_thread_refs]: after PStrs the thread's range is protected only
+       through its key -> string entry; an insert under the same key (excluded by JInv, not by
+       AInv) drops that entry, and then nothing in AInv keeps a range reserved over it from
+       being filled.  [pmap_safe] (no reserved-but-unwritten range overlaps the reference of a
+       thread at PMap) repairs this without needing JInv.  Witness: AInv_not_inductive_pmap.
+   Both witnesses are AInv-states that are not reachable; no clause of AInv is false. *)
 From Lasso Require Import Base Arena ArenaProofs Conc ConcInv.
+From Coq Require Import Permutation.
+
+(* ------------------------------------------------------------------ generic list lemmas *)
+
+Lemma nth_error_split_set {A} (l : list A) n x :
+  nth_error l n = Some x ->
+  exists l1 l2, l = l1 ++ x :: l2 /\ length l1 = n /\ forall y, set_nth n y l = l1 ++ y :: l2.
+Proof.
+  revert n. induction l as [|a l IH]; intros [|n]; simpl; try discriminate.
+  - intros H; inversion H; subst. exists [], l. auto.
+  - intros H. destruct (IH _ H) as (l1 & l2 & -> & Hlen & H2). exists (a :: l1), l2.
+    split; [reflexivity|]. split; [simpl; now rewrite Hlen|].
+    intros y. simpl. now rewrite H2.
+Qed.
+
+Lemma NoDup_app_l {A} (l l' : list A) : NoDup (l ++ l') -> NoDup l.
+Proof.
+  induction l as [|a l IH]; simpl; intros H; [constructor|].
+  inversion H; subst. constructor; [|auto]. intros Hin. apply H2. apply in_or_app. now left.
+Qed.
+
+Lemma sum_N_cons a l : sum_N (a :: l) = a + sum_N l.
+Proof. reflexivity. Qed.
+
+Lemma sum_N_mid {A} (f : A -> N) l1 t l2 :
+  sum_N (map f (l1 ++ t :: l2)) = sum_N (map f l1) + f t + sum_N (map f l2).
+Proof. rewrite map_app, sum_N_app. cbn [map]. rewrite sum_N_cons. lia. Qed.
+
+Lemma flat_map_mid {A B} (f : A -> list B) l1 t l2 :
+  flat_map f (l1 ++ t :: l2) = flat_map f l1 ++ f t ++ flat_map f l2.
+Proof. rewrite flat_map_app. reflexivity. Qed.
+
+Lemma in_flat_map_filter {A B} (f : A -> list B) p l x :
+  In x (flat_map f (filter p l)) -> In x (flat_map f l).
+Proof.
+  rewrite !in_flat_map. intros (a & Ha & Hx). apply filter_In in Ha as [Ha _]. eauto.
+Qed.
+
+Section FOP.
+  Context {A : Type} (R : A -> A -> Prop).
+
+  Lemma FOP_cons_iff a l :
+    ForallOrdPairs R (a :: l) <-> Forall (R a) l /\ ForallOrdPairs R l.
+  Proof.
+    split.
+    - intros H; inversion H; subst; auto.
+    - intros [H1 H2]; constructor; auto.
+  Qed.
+
+  Lemma FOP_app l1 l2 :
+    ForallOrdPairs R (l1 ++ l2) <->
+    ForallOrdPairs R l1 /\ ForallOrdPairs R l2 /\ (forall x y, In x l1 -> In y l2 -> R x y).
+  Proof.
+    induction l1 as [|a l1 IH]; simpl.
+    - split.
+      + intros H. split; [constructor|]. split; [exact H|]. intros x y [].
+      + intros (_ & H & _). exact H.
+    - rewrite !FOP_cons_iff, IH, Forall_app. rewrite !Forall_forall. split.
+      + intros ((H1 & H2) & H3 & H4 & H5). split; [split; assumption|]. split; [assumption|].
+        intros x y [<-|Hx] Hy; auto.
+      + intros ((H1 & H2) & H3 & H4). split; [split|split; [|split]]; auto.
+  Qed.
+
+  Lemma FOP_perm l l' :
+    (forall x y, R x y -> R y x) ->
+    Permutation l l' -> ForallOrdPairs R l -> ForallOrdPairs R l'.
+  Proof.
+    intros Rsym. induction 1 as [|x l l' HP IH|x y l|l l' l'' HP1 IH1 HP2 IH2]; intros H; auto.
+    - apply FOP_cons_iff in H as [H1 H2]. apply FOP_cons_iff. split; auto.
+      eapply Permutation_Forall; eauto.
+    - apply FOP_cons_iff in H as [H1 H2]. apply FOP_cons_iff in H2 as [H2 H3].
+      inversion H1; subst. apply FOP_cons_iff; split; [constructor; auto|].
+      apply FOP_cons_iff; auto.
+  Qed.
+
+  Lemma FOP_flat_map_filter {B} (f : B -> list A) p l :
+    ForallOrdPairs R (flat_map f l) -> ForallOrdPairs R (flat_map f (filter p l)).
+  Proof.
+    induction l as [|a l IH]; simpl; auto. intros H.
+    apply FOP_app in H as (H1 & H2 & H3). destruct (p a); simpl; auto.
+    apply FOP_app. split; [assumption|]. split; [auto|].
+    intros x y Hx Hy. apply H3; auto. eapply in_flat_map_filter; eauto.
+  Qed.
+
+  Lemma FOP_one a : ForallOrdPairs R [a].
+  Proof. constructor; constructor. Qed.
+End FOP.
+
+(* ------------------------------------------------------------------ byte buffers *)
+
+Lemma skipn_add {A} n m (l : list A) : skipn n (skipn m l) = skipn (m + n) l.
+Proof.
+  revert l. induction m as [|m IH]; intros l; simpl; auto.
+  destruct l; simpl; auto. apply skipn_nil.
+Qed.
+
+Lemma bread_bwrite_above d off s o l :
+  (off + length s <= o)%nat -> (off + length s <= length d)%nat ->
+  bread (bwrite d off s) o l = bread d o l.
+Proof.
+  intros H1 H2. unfold bread, bwrite. f_equal.
+  rewrite app_assoc. rewrite skipn_app.
+  rewrite skipn_all2 by (rewrite app_length, firstn_length; lia).
+  rewrite app_length, firstn_length, Nat.min_l by lia. simpl.
+  rewrite skipn_add. f_equal. lia.
+Qed.
+
+(* a copy into [off, off+|s|) leaves every range that does not overlap it unchanged *)
+Lemma bread_bwrite_frame d off s o l :
+  off + slen s <= N.of_nat (length d) ->
+  o + l <= off \/ off + slen s <= o ->
+  bread (bwrite d (N.to_nat off) s) (N.to_nat o) (N.to_nat l) = bread d (N.to_nat o) (N.to_nat l).
+Proof.
+  unfold slen. intros H1 [H2|H2].
+  - apply bread_bwrite_below; lia.
+  - apply bread_bwrite_above; lia.
+Qed.
+
+Lemma bwrite_length_N d off s :
+  off + slen s <= N.of_nat (length d) ->
+  length (bwrite d (N.to_nat off) s) = length d.
+Proof. unfold slen. intros H. apply bwrite_length. lia. Qed.
+
+Lemma bread_bwrite_same_N d off s :
+  off + slen s <= N.of_nat (length d) ->
+  bread (bwrite d (N.to_nat off) s) (N.to_nat off) (N.to_nat (slen s)) = s.
+Proof.
+  unfold slen. intros H. rewrite Nat2N.id. apply bread_bwrite_same. lia.
+Qed.
+
+(* ------------------------------------------------------------------ block lists *)
+
+Lemma find_block_none_inv id l : find_block id l = None -> ~ In id (map bid l).
+Proof.
+  induction l as [|b l IH]; simpl; auto.
+  destruct (bid b =? id) eqn:E; [discriminate|]. apply N.eqb_neq in E.
+  intros H [H1|H1]; [contradiction|]. now apply IH.
+Qed.
+
+(* for lists with pairwise different identities, [find_block] depends only on membership *)
+Lemma find_block_perm id l l' :
+  NoDup (map bid l) -> Permutation l l' -> find_block id l' = find_block id l.
+Proof.
+  intros Hnd HP.
+  assert (Hnd' : NoDup (map bid l')) by (eapply Permutation_NoDup; [apply Permutation_map; eassumption|assumption]).
+  destruct (find_block id l) as [b|] eqn:E.
+  - apply find_block_some in E as [Hin <-]. apply find_block_in; auto.
+    eapply Permutation_in; eauto.
+  - apply find_block_none. intros Hin. apply find_block_none_inv in E. apply E.
+    eapply Permutation_in; [apply Permutation_sym, Permutation_map; eassumption|assumption].
+Qed.
+
+Lemma set_block_split b' bs blk :
+  find_block (bid b') bs = Some blk ->
+  exists p1 p2, bs = p1 ++ blk :: p2 /\ set_block b' bs = p1 ++ b' :: p2.
+Proof.
+  induction bs as [|x bs IH]; simpl; [discriminate|].
+  destruct (bid x =? bid b') eqn:E.
+  - intros H; inversion H; subst. exists [], bs. auto.
+  - intros H. destruct (IH H) as (p1 & p2 & -> & H2). exists (x :: p1), p2. simpl. now rewrite H2.
+Qed.
+
+Lemma region_disjoint_sym x y : region_disjoint x y -> region_disjoint y x.
+Proof. unfold region_disjoint. intros [H|[H|H]]; auto. Qed.
+
+(* ------------------------------------------------------------------ the strengthened invariant *)
+
+(* [AInv] of ConcInv.v is true of every reachable state but is not inductive as stated; what
+   is missing is (1) what a store program counter knows about the sizes it carries and (2) a
+   protection of the reference a thread holds at [PMap] that does not depend on the key ->
+   string entry still being there (see the report at the end of the file). *)
+
+Definition spc_ok (s : str) (p : spc) : Prop :=
+  match p with
+  | SUsage2 next | SLimit2 next _ | SBcapStore next => slen s <= next
+  | SAllocLoad req k next | SAllocCas _ req k next => slen s <= req /\ (k = ADoubled -> req = next)
+  | SNewBlock cap => slen s <= cap
+  | _ => True
+  end.
+
+Definition tref (c : cstate) (t : thread) : Prop :=
+  match t_pc t with
+  | PKeyAdd s r | PStrs s r _ | PMap s r _ => ref_denotes c r s
+  | _ => True
+  end.
+
+Definition tpcs (t : thread) : Prop :=
+  match t_pc t with PStore s _ => s <> [] | _ => True end.
+
+Definition tspc (t : thread) : Prop :=
+  match t_pc t with PStore s p => spc_ok s p | _ => True end.
+
+(* the range behind the reference of a thread that has already put it in the key -> string map *)
+Definition pmap_regions (t : thread) : list region :=
+  match t_pc t with PMap s r _ => region_of_ref r s true | _ => [] end.
+
+Definition tregions (ts : list thread) : list region := flat_map thread_regions ts.
+Definition sregions (l : list entry) : list region :=
+  flat_map (fun e => region_of_ref (e_ref e) (e_str e) true) l.
+
+(* no reserved-but-unwritten range overlaps such a reference *)
+Definition pmap_safe (c : cstate) : Prop :=
+  forall x y, In x (flat_map pmap_regions (c_threads c)) -> In y (tregions (c_threads c)) ->
+              g_written y = false -> region_disjoint x y.
+
+Record AInv' (c : cstate) : Prop := {
+  ai_base : AInv c;
+  ai_spc : Forall tspc (c_threads c);
+  ai_pmap : pmap_safe c
+}.
+
+(* ------------------------------------------------------------------ normal forms *)
+
+Definition ref_den (bs : list block) (r : sref) (s : str) : Prop :=
+  match r with
+  | REmpty => s = []
+  | RStatic _ s' => s' = s
+  | RArena b off len =>
+      0 < len /\ exists blk, find_block b bs = Some blk /\ off + len <= bused blk /\
+                             off + len <= N.of_nat (length (bdata blk)) /\
+                             bread (bdata blk) (N.to_nat off) (N.to_nat len) = s
+  end.
+
+Lemma ref_denotes_iff c r s : ref_denotes c r s <-> ref_den (c_blocks c) r s.
+Proof.
+  unfold ref_denotes, ref_den. destruct r as [|a s'|b off len]; simpl.
+  - split; [intros [_ H]; congruence | intros ->; auto].
+  - split; [intros [_ H]; congruence | intros ->; auto].
+  - split.
+    + intros [(Hl & blk & Hf & Hu) Hr]. rewrite Hf in Hr.
+      destruct (off + len <=? N.of_nat (length (bdata blk))) eqn:E; [|discriminate].
+      apply N.leb_le in E. inversion Hr. split; auto. exists blk. auto.
+    + intros (Hl & blk & Hf & Hu & Hd & Hr). split.
+      * split; auto. exists blk; auto.
+      * rewrite Hf. apply N.leb_le in Hd. rewrite Hd. now rewrite Hr.
+Qed.
+
+Definition region_okB (bs : list block) (g : region) : Prop :=
+  0 < g_len g /\ g_len g = slen (g_str g) /\
+  exists blk, find_block (g_b g) bs = Some blk /\
+              g_off g + g_len g <= bused blk /\
+              (g_written g = true ->
+               bread (bdata blk) (N.to_nat (g_off g)) (N.to_nat (g_len g)) = g_str g).
+
+Lemma region_ok_B c g : region_ok c g = region_okB (all_blocks c) g.
+Proof. reflexivity. Qed.
+
+(* transfer along a change of the block list that keeps what the range needs *)
+Lemma region_okB_mono bs bs' g :
+  region_okB bs g ->
+  (forall blk, find_block (g_b g) bs = Some blk ->
+     exists blk', find_block (g_b g) bs' = Some blk' /\ bused blk <= bused blk' /\
+                  (g_written g = true ->
+                   bread (bdata blk') (N.to_nat (g_off g)) (N.to_nat (g_len g)) =
+                   bread (bdata blk) (N.to_nat (g_off g)) (N.to_nat (g_len g)))) ->
+  region_okB bs' g.
+Proof.
+  intros (H1 & H2 & blk & Hf & Hu & Hw) H. destruct (H _ Hf) as (blk' & Hf' & Hu' & Hw').
+  split; auto. split; auto. exists blk'. split; auto. split; [lia|].
+  intros Hg. rewrite Hw'; auto.
+Qed.
+
+Lemma ref_den_mono bs bs' r s :
+  ref_den bs r s ->
+  (forall b off len blk, r = RArena b off len -> find_block b bs = Some blk ->
+     exists blk', find_block b bs' = Some blk' /\ bused blk <= bused blk' /\
+                  length (bdata blk') = length (bdata blk) /\
+                  bread (bdata blk') (N.to_nat off) (N.to_nat len) =
+                  bread (bdata blk) (N.to_nat off) (N.to_nat len)) ->
+  ref_den bs' r s.
+Proof.
+  destruct r as [|a s'|b off len]; simpl; auto.
+  intros (Hl & blk & Hf & Hu & Hd & Hr) H.
+  destruct (H _ _ _ _ eq_refl Hf) as (blk' & Hf' & Hu' & Hlen & Hrd).
+  split; auto. exists blk'. split; auto. split; [lia|]. split; [rewrite Hlen; lia|]. congruence.
+Qed.
+
+(* ------------------------------------------------------------------ splitting off the moving thread *)
+
+Definition ib (t : thread) : list block :=
+  match inflight_block t with Some b => [b] | None => [] end.
+
+Lemma inflight_blocks_ib c : inflight_blocks c = flat_map ib (c_threads c).
+Proof. reflexivity. Qed.
+
+Lemma regions_split c : regions c = sregions (c_strs c) ++ tregions (c_threads c).
+Proof. reflexivity. Qed.
+
+Definition rest (strs : list entry) (l1 l2 : list thread) : list region :=
+  sregions strs ++ tregions l1 ++ tregions l2.
+
+Lemma regions_perm c l1 t l2 :
+  c_threads c = l1 ++ t :: l2 ->
+  Permutation (regions c) (thread_regions t ++ rest (c_strs c) l1 l2).
+Proof.
+  intros H. rewrite regions_split, H. unfold tregions, rest. rewrite flat_map_mid.
+  rewrite (app_assoc (sregions (c_strs c))). 
+  eapply Permutation_trans; [apply Permutation_app_swap_app|].
+  rewrite <- app_assoc. apply Permutation_refl.
+Qed.
+
+Lemma in_mid {A} (x y : A) l1 l2 : In x (l1 ++ l2) -> In x (l1 ++ y :: l2).
+Proof. rewrite !in_app_iff. simpl. tauto. Qed.
+
+Lemma in_mid_inv {A} (x y : A) l1 l2 : In x (l1 ++ y :: l2) -> x = y \/ In x (l1 ++ l2).
+Proof. rewrite !in_app_iff. simpl. intuition. Qed.
+
+Lemma in_mid_self {A} (y : A) l1 l2 : In y (l1 ++ y :: l2).
+Proof. rewrite in_app_iff. simpl. tauto. Qed.
+
+Lemma in_rest_thread strs l1 l2 ti g :
+  In ti (l1 ++ l2) -> In g (thread_regions ti) -> In g (rest strs l1 l2).
+Proof.
+  intros Hti Hg. unfold rest, tregions. rewrite <- flat_map_app.
+  apply in_or_app. right. apply in_flat_map. eauto.
+Qed.
+
+Lemma in_rest_entry strs l1 l2 e g :
+  In e strs -> In g (region_of_ref (e_ref e) (e_str e) true) -> In g (rest strs l1 l2).
+Proof.
+  intros He Hg. unfold rest, sregions. apply in_or_app. left. apply in_flat_map. eauto.
+Qed.
+
+Lemma in_tregions_mid l1 t l2 g :
+  In g (tregions (l1 ++ t :: l2)) <-> In g (thread_regions t) \/ In g (tregions (l1 ++ l2)).
+Proof.
+  unfold tregions. rewrite flat_map_mid, flat_map_app, !in_app_iff. tauto.
+Qed.
+
+Lemma in_pmap_mid l1 t l2 g :
+  In g (flat_map pmap_regions (l1 ++ t :: l2)) <->
+  In g (pmap_regions t) \/ In g (flat_map pmap_regions (l1 ++ l2)).
+Proof.
+  rewrite flat_map_mid, flat_map_app, !in_app_iff. tauto.
+Qed.
+
+Lemma split_facts c l1 t l2 :
+  AInv c -> c_threads c = l1 ++ t :: l2 ->
+  Forall (region_ok c) (thread_regions t) /\
+  Forall (region_ok c) (rest (c_strs c) l1 l2) /\
+  ForallOrdPairs region_disjoint (thread_regions t) /\
+  ForallOrdPairs region_disjoint (rest (c_strs c) l1 l2) /\
+  (forall x y, In x (thread_regions t) -> In y (rest (c_strs c) l1 l2) -> region_disjoint x y).
+Proof.
+  intros HA Hth. pose proof (regions_perm c _ _ _ Hth) as HP.
+  assert (Hreg : Forall (region_ok c) (thread_regions t ++ rest (c_strs c) l1 l2))
+    by (eapply Permutation_Forall; [exact HP|apply HA]).
+  assert (Hdis : ForallOrdPairs region_disjoint (thread_regions t ++ rest (c_strs c) l1 l2))
+    by (eapply FOP_perm; [exact region_disjoint_sym|exact HP|apply HA]).
+  apply Forall_app in Hreg as [H1 H2]. apply FOP_app in Hdis as (H3 & H4 & H5).
+  exact (conj H1 (conj H2 (conj H3 (conj H4 H5)))).
+Qed.
+
+Lemma all_blocks_mid c l1 t l2 :
+  c_threads c = l1 ++ t :: l2 ->
+  all_blocks c = c_blocks c ++ flat_map ib l1 ++ ib t ++ flat_map ib l2.
+Proof.
+  intros H. unfold all_blocks. rewrite inflight_blocks_ib, H, flat_map_mid. reflexivity.
+Qed.
+
+Lemma Forall_mid {A} (P : A -> Prop) l1 t t' l2 :
+  Forall P (l1 ++ t :: l2) -> P t' -> Forall P (l1 ++ t' :: l2).
+Proof.
+  intros H Ht. apply Forall_app in H as [H1 H2]. inversion H2; subst.
+  apply Forall_app; split; auto.
+Qed.
+
+Lemma Forall_mid_in {A} (P : A -> Prop) l1 t l2 :
+  Forall P (l1 ++ t :: l2) -> P t /\ forall x, In x (l1 ++ l2) -> P x.
+Proof.
+  intros H. rewrite Forall_forall in H. split.
+  - apply H, in_mid_self.
+  - intros x Hx. apply H, in_mid, Hx.
+Qed.
+
+(* ------------------------------------------------------------------ the assembly lemma *)
+
+(* One thread moves from [t] to [t'], the key -> string map is unchanged.  What remains to be
+   shown for each kind of step: the block-level clauses, the accounting, that the other
+   owners' ranges and references survive, and the clauses about the moved thread. *)
+Lemma assemble c c' l1 t t' l2 :
+  AInv' c -> c_threads c = l1 ++ t :: l2 -> c_threads c' = l1 ++ t' :: l2 ->
+  c_strs c' = c_strs c ->
+  Forall block_ok (all_blocks c') -> NoDup (map bid (all_blocks c')) ->
+  Forall (fun b => bid b < c_next_bid c') (all_blocks c') -> c_blocks c' <> [] ->
+  0 < c_bcap c' ->
+  c_usage c' = sum_N (map bcap (c_blocks c')) + sum_N (map inflight_cap (c_threads c')) ->
+  (forall g, In g (rest (c_strs c) l1 l2) -> region_ok c g -> region_ok c' g) ->
+  (forall r s, ref_denotes c r s ->
+     (forall g y, In g (region_of_ref r s true) -> In y (thread_regions t) ->
+                  g_written y = false -> region_disjoint g y) ->
+     ref_denotes c' r s) ->
+  Forall (region_ok c') (thread_regions t') ->
+  ForallOrdPairs region_disjoint (thread_regions t') ->
+  (forall g g', In g (thread_regions t') -> In g' (rest (c_strs c) l1 l2) ->
+                region_ok c g' -> region_disjoint g g') ->
+  tref c' t' -> tpcs t' -> tspc t' -> pmap_regions t' = [] ->
+  (forall ti s r k x y, In ti (l1 ++ l2) -> t_pc ti = PMap s r k -> ref_denotes c r s ->
+     In x (region_of_ref r s true) -> In y (thread_regions t') -> g_written y = false ->
+     region_disjoint x y) ->
+  AInv' c'.
+Proof.
+  intros [HA Hspc Hpm] Hth Hth' Hstrs Hbok Hnd Hfr Hne Hbc Hus Hrok Hden Htrok Htfop Htdis
+         Htref Htpcs Htspc Htpm Hpmnew.
+  destruct (split_facts _ _ _ _ HA Hth) as (Hreg_t & Hreg_r & Hd_t & Hd_r & Hd_x).
+  assert (Hsafe : forall g y, In g (rest (c_strs c) l1 l2) -> In y (thread_regions t) ->
+                              region_disjoint g y)
+    by (intros; apply region_disjoint_sym; auto).
+  pose proof (ai_thread_refs _ HA) as Hrefs. rewrite Hth in Hrefs.
+  apply Forall_mid_in in Hrefs as [_ Hrefs].
+  assert (Hothers : forall ti, In ti (l1 ++ l2) -> tref c' ti).
+  { intros ti Hti. specialize (Hrefs ti Hti). unfold tref. destruct (t_pc ti) eqn:Epc; auto.
+    - apply Hden; auto. intros g y Hg Hy _. apply Hsafe; auto.
+      eapply in_rest_thread; eauto. unfold thread_regions. now rewrite Epc.
+    - apply Hden; auto. intros g y Hg Hy _. apply Hsafe; auto.
+      eapply in_rest_thread; eauto. unfold thread_regions. now rewrite Epc.
+    - apply Hden; auto. intros g y Hg Hy Hw. apply Hpm; auto.
+      + rewrite Hth. apply in_pmap_mid. right. apply in_flat_map. exists ti. split; auto.
+        unfold pmap_regions. now rewrite Epc.
+      + rewrite Hth. apply in_tregions_mid. now left. }
+  pose proof (regions_perm c' _ _ _ Hth') as HP'. rewrite Hstrs in HP'.
+  apply Permutation_sym in HP'.
+  constructor; [constructor|..]; auto.
+  - (* regions ok *)
+    eapply Permutation_Forall; [exact HP'|]. apply Forall_app. split; auto.
+    rewrite Forall_forall in *. auto.
+  - (* disjoint *)
+    eapply FOP_perm; [exact region_disjoint_sym|exact HP'|]. apply FOP_app.
+    split; auto. split; auto. intros x y Hx Hy. apply Htdis; auto.
+    rewrite Forall_forall in Hreg_r. auto.
+  - (* strs denote *)
+    rewrite Hstrs. pose proof (ai_strs_denote _ HA) as H. rewrite Forall_forall in *.
+    intros e He. apply Hden; auto. intros g y Hg Hy _. apply Hsafe; auto.
+    eapply in_rest_entry; eauto.
+  - (* thread refs *)
+    rewrite Hth'. apply Forall_forall. intros ti Hti. apply in_mid_inv in Hti as [->|Hti].
+    + exact Htref.
+    + apply (Hothers ti Hti).
+  - (* store pcs *)
+    rewrite Hth'. pose proof (ai_store_pcs _ HA) as H. rewrite Hth in H.
+    eapply Forall_mid; eauto.
+  - (* store pc facts *)
+    rewrite Hth'. rewrite Hth in Hspc. eapply Forall_mid; eauto.
+  - (* pmap_safe *)
+    intros x y Hx Hy Hw. rewrite Hth' in Hx, Hy.
+    apply in_pmap_mid in Hx as [Hx|Hx]; [rewrite Htpm in Hx; destruct Hx|].
+    apply in_tregions_mid in Hy as [Hy|Hy].
+    + apply in_flat_map in Hx as (ti & Hti & Hx).
+      unfold pmap_regions in Hx. destruct (t_pc ti) eqn:Epc; try (now destruct Hx).
+      eapply Hpmnew; eauto. specialize (Hrefs ti Hti). now rewrite Epc in Hrefs.
+    + apply Hpm; auto; rewrite Hth.
+      * apply in_pmap_mid. now right.
+      * apply in_tregions_mid. now right.
+Qed.
+
+(* ------------------------------------------------------------------ kind 1: neutral steps *)
+
+Lemma all_blocks_same c c' l1 t t' l2 :
+  c_threads c = l1 ++ t :: l2 -> c_threads c' = l1 ++ t' :: l2 ->
+  c_blocks c' = c_blocks c -> inflight_block t' = inflight_block t ->
+  all_blocks c' = all_blocks c.
+Proof.
+  intros H H0 H1 H2. rewrite (all_blocks_mid c _ _ _ H), (all_blocks_mid c' _ _ _ H0), H1.
+  unfold ib. now rewrite H2.
+Qed.
+
+Lemma tref_ext c c' t : c_blocks c' = c_blocks c -> tref c t -> tref c' t.
+Proof.
+  intros H. unfold tref. destruct (t_pc t); auto; rewrite !ref_denotes_iff, H; auto.
+Qed.
+
+Lemma in_pmap_thread ts ti s r k x :
+  In ti ts -> t_pc ti = PMap s r k -> In x (region_of_ref r s true) ->
+  In x (flat_map pmap_regions ts).
+Proof.
+  intros Hti Hpc Hx. apply in_flat_map. exists ti. split; auto.
+  unfold pmap_regions. now rewrite Hpc.
+Qed.
+
+(* A step that changes only the moving thread's program counter (and possibly fields the
+   storage invariant does not look at, or the usage counter together with the thread's
+   granted budget), keeps or drops the thread's range, and keeps its unpublished block. *)
+Lemma K1 c c' l1 t t' l2 :
+  AInv' c -> c_threads c = l1 ++ t :: l2 -> c_threads c' = l1 ++ t' :: l2 ->
+  c_blocks c' = c_blocks c -> c_next_bid c' = c_next_bid c -> c_strs c' = c_strs c ->
+  0 < c_bcap c' ->
+  c_usage c' + inflight_cap t = c_usage c + inflight_cap t' ->
+  inflight_block t' = inflight_block t ->
+  (thread_regions t' = thread_regions t \/ thread_regions t' = []) ->
+  pmap_regions t' = [] ->
+  tref c t' -> tpcs t' -> tspc t' -> AInv' c'.
+Proof.
+  intros HI Hth Hth' Hbl Hnb Hst Hbc Hus Hib Hreg Hpm Htref Htpcs Htspc.
+  pose proof (all_blocks_same _ _ _ _ _ _ Hth Hth' Hbl Hib) as Hab.
+  pose proof (ai_base _ HI) as HA.
+  destruct (split_facts _ _ _ _ HA Hth) as (Hreg_t & Hreg_r & Hd_t & Hd_r & Hd_x).
+  eapply assemble with (1 := HI) (2 := Hth) (3 := Hth') (4 := Hst).
+  - rewrite Hab. apply HA.
+  - rewrite Hab. apply HA.
+  - rewrite Hab, Hnb. apply HA.
+  - rewrite Hbl. apply HA.
+  - exact Hbc.
+  - rewrite Hbl, Hth', sum_N_mid. pose proof (ai_usage _ HA) as H.
+    rewrite Hth, sum_N_mid in H. lia.
+  - intros g _ Hg. rewrite region_ok_B in *. now rewrite Hab.
+  - intros r s Hd _. apply ref_denotes_iff. rewrite Hbl. now apply ref_denotes_iff.
+  - destruct Hreg as [-> | ->]; [|constructor].
+    rewrite Forall_forall in *. intros g Hg. rewrite region_ok_B, Hab. now apply Hreg_t.
+  - destruct Hreg as [-> | ->]; [assumption|constructor].
+  - intros g g' Hg Hg' _. destruct Hreg as [Hr|Hr]; rewrite Hr in Hg; [auto|destruct Hg].
+  - eapply tref_ext; eauto.
+  - exact Htpcs.
+  - exact Htspc.
+  - exact Hpm.
+  - intros ti s r k x y Hti Hpc Hd Hx Hy Hw. apply (ai_pmap _ HI); auto; rewrite Hth.
+    + eapply in_pmap_thread; eauto. now apply in_mid.
+    + apply in_tregions_mid. left. destruct Hreg as [Hr|Hr]; rewrite Hr in Hy; [auto|destruct Hy].
+Qed.
+
+Lemma K1n c c' tid t t' :
+  AInv' c -> nth_error (c_threads c) tid = Some t ->
+  c_threads c' = set_nth tid t' (c_threads c) ->
+  c_blocks c' = c_blocks c -> c_next_bid c' = c_next_bid c -> c_strs c' = c_strs c ->
+  0 < c_bcap c' ->
+  c_usage c' + inflight_cap t = c_usage c + inflight_cap t' ->
+  inflight_block t' = inflight_block t ->
+  (thread_regions t' = thread_regions t \/ thread_regions t' = []) ->
+  pmap_regions t' = [] ->
+  tref c t' -> tpcs t' -> tspc t' -> AInv' c'.
+Proof.
+  intros HI Hnth Hth'. destruct (nth_error_split_set _ _ _ Hnth) as (l1 & l2 & Hth & _ & Hset).
+  rewrite Hset in Hth'. eapply K1; eauto.
+Qed.
+
+(* ------------------------------------------------------------------ kinds 3, 4: a published block is updated in place *)
+
+Lemma replace_facts c c' l1 t t' l2 b blk blk' :
+  NoDup (map bid (all_blocks c)) ->
+  c_threads c = l1 ++ t :: l2 -> c_threads c' = l1 ++ t' :: l2 ->
+  inflight_block t' = inflight_block t ->
+  find_block b (c_blocks c) = Some blk -> bid blk' = b -> bcap blk' = bcap blk ->
+  c_blocks c' = set_block blk' (c_blocks c) ->
+  (forall id, find_block id (c_blocks c') =
+              if b =? id then Some blk' else find_block id (c_blocks c)) /\
+  (forall id, find_block id (all_blocks c') =
+              if b =? id then Some blk' else find_block id (all_blocks c)) /\
+  find_block b (all_blocks c) = Some blk /\
+  map bid (all_blocks c') = map bid (all_blocks c) /\
+  map bcap (c_blocks c') = map bcap (c_blocks c) /\
+  (forall P : block -> Prop, Forall P (all_blocks c) -> P blk' -> Forall P (all_blocks c')) /\
+  c_blocks c' <> [].
+Proof.
+  intros Hnd Hth Hth' Hib Hf Hb Hcap Hbl. subst b.
+  destruct (set_block_split _ _ _ Hf) as (p1 & p2 & Hc & Hs).
+  pose proof (find_block_some _ _ _ Hf) as [_ Hid].
+  assert (Hab : all_blocks c = p1 ++ blk :: (p2 ++ inflight_blocks c))
+    by (unfold all_blocks; rewrite Hc, <- app_assoc; reflexivity).
+  assert (Hib' : inflight_blocks c' = inflight_blocks c).
+  { rewrite !inflight_blocks_ib, Hth, Hth', !flat_map_mid. unfold ib. now rewrite Hib. }
+  assert (Hab' : all_blocks c' = p1 ++ blk' :: (p2 ++ inflight_blocks c))
+    by (unfold all_blocks; rewrite Hbl, Hs, Hib', <- app_assoc; reflexivity).
+  assert (Hndc : NoDup (map bid (p1 ++ blk :: p2))).
+  { rewrite Hab in Hnd. rewrite app_comm_cons, app_assoc, map_app in Hnd.
+    now apply NoDup_app_l in Hnd. }
+  split; [|split; [|split; [|split; [|split; [|split]]]]].
+  - intros id. rewrite Hbl, Hs, Hc, <- Hid. apply find_block_replace; auto.
+  - intros id. rewrite Hab', Hab, <- Hid. apply find_block_replace; auto. now rewrite <- Hab.
+  - unfold all_blocks. rewrite find_block_app, Hf. reflexivity.
+  - rewrite Hab', Hab, !map_app. simpl. now rewrite Hid.
+  - rewrite Hbl, Hs, Hc, !map_app. simpl. now rewrite Hcap.
+  - intros P HP Hblk'. rewrite Hab in HP. rewrite Hab'. eapply Forall_mid; eauto.
+  - rewrite Hbl, Hs. destruct p1; discriminate.
+Qed.
+
+Lemma K_cas c c' tid t t' s b seen tries rs blk :
+  AInv' c -> nth_error (c_threads c) tid = Some t -> c_threads c' = set_nth tid t' (c_threads c) ->
+  t_pc t = PStore s (SCas b seen tries rs) -> t_pc t' = PStore s (SCopy b seen) ->
+  find_block b (c_blocks c) = Some blk -> bused blk = seen -> seen + slen s <= bcap blk ->
+  c_blocks c' = set_block (mkBlock (bid blk) (bcap blk) (seen + slen s) (bdata blk)) (c_blocks c) ->
+  c_next_bid c' = c_next_bid c -> c_strs c' = c_strs c -> c_bcap c' = c_bcap c ->
+  c_usage c' = c_usage c -> AInv' c'.
+Proof.
+  intros HI Hnth Hth' Hpc Hpc' Hf Hseen Hfit Hbl Hnb Hst Hbc Hus.
+  destruct (nth_error_split_set _ _ _ Hnth) as (l1 & l2 & Hth & _ & Hset). rewrite Hset in Hth'.
+  clear Hset Hnth.
+  pose proof (ai_base _ HI) as HA.
+  destruct (split_facts _ _ _ _ HA Hth) as (Hreg_t & Hreg_r & Hd_t & Hd_r & Hd_x).
+  destruct t as [p0 cl pr ou], t' as [p0' cl' pr' ou']. cbn [t_pc] in Hpc, Hpc'. subst p0 p0'.
+  pose proof (find_block_some _ _ _ Hf) as [_ Hid].
+  set (blk' := mkBlock (bid blk) (bcap blk) (seen + slen s) (bdata blk)) in *.
+  destruct (replace_facts c c' _ _ _ _ b blk blk' (ai_nodup _ HA) Hth Hth' eq_refl Hf Hid eq_refl Hbl)
+    as (Hfc & Hfa & Hfb & Hmid & Hmcap & HP & Hne).
+  assert (Hs : s <> []).
+  { pose proof (ai_store_pcs _ HA) as H. rewrite Hth in H. apply Forall_mid_in in H as [H _]. exact H. }
+  pose proof (slen_pos _ Hs) as Hlen.
+  assert (Hblk : block_ok blk).
+  { pose proof (ai_blocks_ok _ HA) as H. rewrite Forall_forall in H. apply H.
+    apply find_block_some in Hfb. tauto. }
+  eapply assemble with (1 := HI) (2 := Hth) (3 := Hth') (4 := Hst).
+  - apply HP; [apply HA|]. destruct Hblk as (H1 & H2 & H3). unfold block_ok, blk'; simpl. auto.
+  - rewrite Hmid. apply HA.
+  - rewrite Hnb. apply HP; [apply HA|]. unfold blk'; simpl.
+    pose proof (ai_fresh _ HA) as H. rewrite Forall_forall in H. apply H.
+    apply find_block_some in Hfb. tauto.
+  - exact Hne.
+  - rewrite Hbc. apply HA.
+  - rewrite Hus, Hmcap, Hth', sum_N_mid. pose proof (ai_usage _ HA) as H.
+    rewrite Hth, sum_N_mid in H. cbn in *. lia.
+  - intros g _ Hg. rewrite region_ok_B in *. eapply region_okB_mono; [exact Hg|].
+    intros blk0 Hf0. rewrite Hfa. destruct (b =? g_b g) eqn:E.
+    + apply N.eqb_eq in E. rewrite <- E, Hfb in Hf0. inversion Hf0; subst blk0.
+      exists blk'. split; auto. unfold blk'; simpl. split; [lia|auto].
+    + exists blk0. split; auto. split; [lia|auto].
+  - intros r s1 Hd _. apply ref_denotes_iff. apply ref_denotes_iff in Hd.
+    eapply ref_den_mono; [exact Hd|]. intros b1 off len blk0 _ Hf0. rewrite Hfc.
+    destruct (b =? b1) eqn:E.
+    + apply N.eqb_eq in E. rewrite <- E, Hf in Hf0. inversion Hf0; subst blk0.
+      exists blk'. split; auto. unfold blk'; simpl. split; [lia|auto].
+    + exists blk0. split; auto. split; [lia|auto].
+  - cbn. constructor; [|constructor]. rewrite region_ok_B. unfold region_okB; cbn.
+    split; auto. split; auto. exists blk'. rewrite Hfa, N.eqb_refl. split; auto.
+    unfold blk'; simpl. split; [lia|discriminate].
+  - cbn. apply FOP_one.
+  - cbn. intros g g' [<-|[]] Hg' (_ & _ & blk0 & Hf0 & Hu0 & _). unfold region_disjoint; cbn.
+    destruct (N.eq_dec b (g_b g')) as [E|E]; [|auto].
+    rewrite <- E, Hfb in Hf0. inversion Hf0; subst blk0. right. right. lia.
+  - exact I.
+  - exact Hs.
+  - exact I.
+  - reflexivity.
+  - cbn. intros ti s1 r k x y Hti Hpcti Hd Hx [<-|[]] _.
+    apply ref_denotes_iff in Hd. destruct r as [| |b1 o l]; try (now destruct Hx).
+    destruct Hx as [<-|[]]. destruct Hd as (_ & blk0 & Hf0 & Hu0 & _).
+    unfold region_disjoint; cbn.
+    destruct (N.eq_dec b1 b) as [E|E]; [|auto].
+    rewrite E, Hf in Hf0. inversion Hf0; subst blk0. right. left. lia.
+Qed.
+
+Lemma K_copy c c' tid t t' s b off blk :
+  AInv' c -> nth_error (c_threads c) tid = Some t -> c_threads c' = set_nth tid t' (c_threads c) ->
+  t_pc t = PStore s (SCopy b off) -> t_pc t' = PKeyAdd s (RArena b off (slen s)) ->
+  find_block b (c_blocks c) = Some blk ->
+  c_blocks c' = set_block (mkBlock (bid blk) (bcap blk) (bused blk)
+                                   (bwrite (bdata blk) (N.to_nat off) s)) (c_blocks c) ->
+  c_next_bid c' = c_next_bid c -> c_strs c' = c_strs c -> c_bcap c' = c_bcap c ->
+  c_usage c' = c_usage c -> AInv' c'.
+Proof.
+  intros HI Hnth Hth' Hpc Hpc' Hf Hbl Hnb Hst Hbc Hus.
+  destruct (nth_error_split_set _ _ _ Hnth) as (l1 & l2 & Hth & _ & Hset). rewrite Hset in Hth'.
+  clear Hset Hnth.
+  pose proof (ai_base _ HI) as HA.
+  destruct (split_facts _ _ _ _ HA Hth) as (Hreg_t & Hreg_r & Hd_t & Hd_r & Hd_x).
+  destruct t as [p0 cl pr ou], t' as [p0' cl' pr' ou']. cbn [t_pc] in Hpc, Hpc'. subst p0 p0'.
+  pose proof (find_block_some _ _ _ Hf) as [_ Hid].
+  set (blk' := mkBlock (bid blk) (bcap blk) (bused blk) (bwrite (bdata blk) (N.to_nat off) s)) in *.
+  destruct (replace_facts c c' _ _ _ _ b blk blk' (ai_nodup _ HA) Hth Hth' eq_refl Hf Hid eq_refl Hbl)
+    as (Hfc & Hfa & Hfb & Hmid & Hmcap & HP & Hne).
+  assert (Hs : s <> []).
+  { pose proof (ai_store_pcs _ HA) as H. rewrite Hth in H. apply Forall_mid_in in H as [H _]. exact H. }
+  pose proof (slen_pos _ Hs) as Hlen.
+  assert (Hblk : block_ok blk).
+  { pose proof (ai_blocks_ok _ HA) as H. rewrite Forall_forall in H. apply H.
+    apply find_block_some in Hfb. tauto. }
+  destruct Hblk as (Hb1 & Hb2 & Hb3).
+  (* the reserved range lies inside the used part of blk *)
+  cbn in Hreg_t, Hd_x. apply Forall_inv in Hreg_t.
+  destruct Hreg_t as (_ & _ & blk0 & Hf0 & Hu0 & _). cbn in Hf0, Hu0.
+  rewrite Hfb in Hf0. inversion Hf0; subst blk0. clear Hf0.
+  assert (Hin : off + slen s <= N.of_nat (length (bdata blk))) by lia.
+  eapply assemble with (1 := HI) (2 := Hth) (3 := Hth') (4 := Hst).
+  - apply HP; [apply HA|]. unfold block_ok, blk'; simpl. rewrite bwrite_length_N; auto.
+  - rewrite Hmid. apply HA.
+  - rewrite Hnb. apply HP; [apply HA|]. unfold blk'; simpl.
+    pose proof (ai_fresh _ HA) as H. rewrite Forall_forall in H. apply H.
+    apply find_block_some in Hfb. tauto.
+  - exact Hne.
+  - rewrite Hbc. apply HA.
+  - rewrite Hus, Hmcap, Hth', sum_N_mid. pose proof (ai_usage _ HA) as H.
+    rewrite Hth, sum_N_mid in H. cbn in *. lia.
+  - intros g Hgin Hg. rewrite region_ok_B in *. eapply region_okB_mono; [exact Hg|].
+    intros blk0 Hf0. rewrite Hfa. destruct (b =? g_b g) eqn:E.
+    + apply N.eqb_eq in E. rewrite <- E, Hfb in Hf0. inversion Hf0; subst blk0.
+      exists blk'. split; auto. unfold blk'; simpl. split; [lia|]. intros _.
+      apply bread_bwrite_frame; auto.
+      specialize (Hd_x _ g (or_introl eq_refl) Hgin). unfold region_disjoint in Hd_x. cbn in Hd_x.
+      destruct Hd_x as [H|[H|H]]; [congruence|right; exact H|left; exact H].
+    + exists blk0. split; auto. split; [lia|auto].
+  - intros r s1 Hd Hsafe. apply ref_denotes_iff. apply ref_denotes_iff in Hd.
+    eapply ref_den_mono; [exact Hd|]. intros b1 o l blk0 -> Hf0. rewrite Hfc.
+    destruct (b =? b1) eqn:E.
+    + apply N.eqb_eq in E. rewrite <- E, Hf in Hf0. inversion Hf0; subst blk0.
+      exists blk'. split; auto. unfold blk'; simpl. split; [lia|].
+      split; [apply bwrite_length_N; auto|].
+      apply bread_bwrite_frame; auto.
+      specialize (Hsafe _ _ (or_introl eq_refl) (or_introl eq_refl) eq_refl).
+      unfold region_disjoint in Hsafe. cbn in Hsafe.
+      destruct Hsafe as [H|[H|H]]; [congruence|left; exact H|right; exact H].
+    + exists blk0. split; auto. split; [lia|auto].
+  - cbn. constructor; [|constructor]. rewrite region_ok_B. unfold region_okB; cbn.
+    split; auto. split; auto. exists blk'. rewrite Hfa, N.eqb_refl. split; auto.
+    unfold blk'; simpl. split; [lia|]. intros _. apply bread_bwrite_same_N; auto.
+  - cbn. apply FOP_one.
+  - cbn. intros g g' [<-|[]] Hg' _.
+    specialize (Hd_x _ g' (or_introl eq_refl) Hg'). exact Hd_x.
+  - unfold tref; cbn. apply ref_denotes_iff. cbn. split; auto. exists blk'.
+    rewrite Hfc, N.eqb_refl. split; auto. unfold blk'; simpl. split; [lia|].
+    rewrite bwrite_length_N by auto. split; [lia|]. apply bread_bwrite_same_N; auto.
+  - exact I.
+  - exact I.
+  - reflexivity.
+  - cbn. intros ti s1 r k x y _ _ _ _ [<-|[]] Hw. discriminate Hw.
+Qed.
+
+(* ------------------------------------------------------------------ kind 5: a new unpublished block *)
+
+Lemma Forall_insert {A} (P : A -> Prop) l1 x l2 :
+  Forall P (l1 ++ l2) -> P x -> Forall P (l1 ++ x :: l2).
+Proof.
+  intros H Hx. apply Forall_app in H as [H1 H2]. apply Forall_app. split; auto.
+Qed.
+
+Lemma K_new c c' tid t t' s cap blk r :
+  AInv' c -> nth_error (c_threads c) tid = Some t -> c_threads c' = set_nth tid t' (c_threads c) ->
+  t_pc t = PStore s (SNewBlock cap) -> push_slice (fresh_block (c_next_bid c) cap) s = (blk, r) ->
+  t_pc t' = PStore s (SPushLoad blk) ->
+  c_blocks c' = c_blocks c ->
+  c_next_bid c' = c_next_bid c + 1 -> c_strs c' = c_strs c -> c_bcap c' = c_bcap c ->
+  c_usage c' = c_usage c -> AInv' c'.
+Proof.
+  intros HI Hnth Hth' Hpc Hps Hpc' Hbl Hnb Hst Hbc Hus.
+  destruct (nth_error_split_set _ _ _ Hnth) as (l1 & l2 & Hth & _ & Hset). rewrite Hset in Hth'.
+  clear Hset Hnth.
+  pose proof (ai_base _ HI) as HA.
+  destruct (split_facts _ _ _ _ HA Hth) as (Hreg_t & Hreg_r & Hd_t & Hd_r & Hd_x).
+  destruct t as [p0 cl pr ou], t' as [p0' cl' pr' ou']. cbn [t_pc] in Hpc, Hpc'. subst p0 p0'.
+  assert (Hs : s <> []).
+  { pose proof (ai_store_pcs _ HA) as H. rewrite Hth in H. apply Forall_mid_in in H as [H _]. exact H. }
+  pose proof (slen_pos _ Hs) as Hlen.
+  assert (Hcap : slen s <= cap).
+  { pose proof (ai_spc _ HI) as H. rewrite Hth in H. apply Forall_mid_in in H as [H _]. exact H. }
+  assert (Hfb : block_ok (fresh_block (c_next_bid c) cap)) by (apply fresh_block_ok; lia).
+  assert (Hfit : bused (fresh_block (c_next_bid c) cap) + slen s <= bcap (fresh_block (c_next_bid c) cap))
+    by (simpl; lia).
+  destruct (push_slice_spec _ _ _ _ Hfb Hfit Hps)
+    as (Hb' & Hid & Hbcap & Hused & _ & _ & Hrd & _).
+  simpl in Hid, Hbcap, Hused, Hrd.
+  set (X := c_blocks c ++ flat_map ib l1).
+  assert (Hab : all_blocks c = X ++ flat_map ib l2)
+    by (rewrite (all_blocks_mid _ _ _ _ Hth); unfold X; cbn; now rewrite <- app_assoc).
+  assert (Hab' : all_blocks c' = X ++ blk :: flat_map ib l2)
+    by (rewrite (all_blocks_mid _ _ _ _ Hth'), Hbl; unfold X; cbn; now rewrite <- app_assoc).
+  pose proof (ai_fresh _ HA) as Hfr. rewrite Forall_forall in Hfr.
+  assert (Hfresh : ~ In (bid blk) (map bid (X ++ flat_map ib l2))).
+  { rewrite <- Hab, Hid. intros Hin. apply in_map_iff in Hin as (x & Hx & Hin).
+    apply Hfr in Hin. lia. }
+  assert (Hfa : forall id, find_block id (all_blocks c') =
+                           if bid blk =? id then Some blk else find_block id (all_blocks c))
+    by (intros id; rewrite Hab', Hab; now apply find_block_insert).
+  assert (Hold : forall id blk0, find_block id (all_blocks c) = Some blk0 -> (bid blk =? id) = false).
+  { intros id blk0 Hf0. apply find_block_some in Hf0 as [Hin <-]. apply Hfr in Hin.
+    apply N.eqb_neq. lia. }
+  eapply assemble with (1 := HI) (2 := Hth) (3 := Hth') (4 := Hst).
+  - rewrite Hab'. apply Forall_insert; auto. rewrite <- Hab. apply HA.
+  - rewrite Hab', map_app. simpl.
+    apply (NoDup_Add (Add_app (bid blk) (map bid X) (map bid (flat_map ib l2)))). split.
+    + rewrite <- map_app, <- Hab. apply HA.
+    + now rewrite <- map_app.
+  - rewrite Hab', Hnb. apply Forall_insert; [|lia]. rewrite <- Hab. apply Forall_forall.
+    intros x Hx. apply Hfr in Hx. lia.
+  - rewrite Hbl. apply HA.
+  - rewrite Hbc. apply HA.
+  - rewrite Hus, Hbl, Hth', sum_N_mid. pose proof (ai_usage _ HA) as H.
+    rewrite Hth, sum_N_mid in H. cbn in *. lia.
+  - intros g _ Hg. rewrite region_ok_B in *. eapply region_okB_mono; [exact Hg|].
+    intros blk0 Hf0. rewrite Hfa, (Hold _ _ Hf0). exists blk0. split; auto. split; [lia|auto].
+  - intros r0 s1 Hd _. apply ref_denotes_iff. rewrite Hbl. now apply ref_denotes_iff.
+  - cbn. constructor; [|constructor]. rewrite region_ok_B. unfold region_okB; cbn.
+    split; auto. split; auto. exists blk. rewrite Hfa, N.eqb_refl. split; auto.
+    split; [lia|]. intros _. exact Hrd.
+  - cbn. apply FOP_one.
+  - cbn. intros g g' [<-|[]] Hg' (_ & _ & blk0 & Hf0 & _). left. cbn.
+    apply Hold in Hf0. apply N.eqb_neq in Hf0. exact Hf0.
+  - exact I.
+  - exact Hs.
+  - exact I.
+  - reflexivity.
+  - cbn. intros ti s1 r0 k x y _ _ _ _ [<-|[]] Hw. discriminate Hw.
+Qed.
+
+(* ------------------------------------------------------------------ kind 6: the block is published *)
+
+Lemma K_push c c' tid t t' s blk seen :
+  AInv' c -> nth_error (c_threads c) tid = Some t -> c_threads c' = set_nth tid t' (c_threads c) ->
+  t_pc t = PStore s (SPushCas blk seen) -> t_pc t' = PKeyAdd s (RArena (bid blk) 0 (slen s)) ->
+  c_blocks c' = blk :: c_blocks c ->
+  c_next_bid c' = c_next_bid c -> c_strs c' = c_strs c -> c_bcap c' = c_bcap c ->
+  c_usage c' = c_usage c -> AInv' c'.
+Proof.
+  intros HI Hnth Hth' Hpc Hpc' Hbl Hnb Hst Hbc Hus.
+  destruct (nth_error_split_set _ _ _ Hnth) as (l1 & l2 & Hth & _ & Hset). rewrite Hset in Hth'.
+  clear Hset Hnth.
+  pose proof (ai_base _ HI) as HA.
+  destruct (split_facts _ _ _ _ HA Hth) as (Hreg_t & Hreg_r & Hd_t & Hd_r & Hd_x).
+  destruct t as [p0 cl pr ou], t' as [p0' cl' pr' ou']. cbn [t_pc] in Hpc, Hpc'. subst p0 p0'.
+  assert (Hs : s <> []).
+  { pose proof (ai_store_pcs _ HA) as H. rewrite Hth in H. apply Forall_mid_in in H as [H _]. exact H. }
+  pose proof (slen_pos _ Hs) as Hlen.
+  set (X := c_blocks c ++ flat_map ib l1).
+  assert (Hab : all_blocks c = X ++ blk :: flat_map ib l2)
+    by (rewrite (all_blocks_mid _ _ _ _ Hth); unfold X; cbn; now rewrite <- app_assoc).
+  assert (Hab' : all_blocks c' = blk :: X ++ flat_map ib l2)
+    by (rewrite (all_blocks_mid _ _ _ _ Hth'), Hbl; unfold X; cbn; now rewrite <- app_assoc).
+  assert (HPm : Permutation (all_blocks c) (all_blocks c'))
+    by (rewrite Hab, Hab'; apply Permutation_sym, Permutation_middle).
+  pose proof (ai_nodup _ HA) as Hnd.
+  assert (Hfa : forall id, find_block id (all_blocks c') = find_block id (all_blocks c))
+    by (intros id; now apply find_block_perm).
+  assert (Hinb : In blk (all_blocks c)) by (rewrite Hab; apply in_mid_self).
+  assert (Hfb : find_block (bid blk) (all_blocks c) = Some blk) by (now apply find_block_in).
+  assert (Hnotpub : ~ In (bid blk) (map bid (c_blocks c))).
+  { rewrite Hab in Hnd. unfold X in Hnd. rewrite map_app in Hnd. simpl in Hnd.
+    apply NoDup_remove_2 in Hnd. intros Hin. apply Hnd. rewrite map_app.
+    apply in_or_app. left. apply in_or_app. now left. }
+  assert (Hblk : block_ok blk).
+  { pose proof (ai_blocks_ok _ HA) as H. rewrite Forall_forall in H. now apply H. }
+  destruct Hblk as (Hb1 & Hb2 & Hb3).
+  cbn in Hreg_t, Hd_x. apply Forall_inv in Hreg_t.
+  destruct Hreg_t as (_ & _ & blk0 & Hf0 & Hu0 & Hw0). cbn in Hf0, Hu0, Hw0.
+  rewrite Hfb in Hf0. inversion Hf0; subst blk0. clear Hf0. specialize (Hw0 eq_refl).
+  eapply assemble with (1 := HI) (2 := Hth) (3 := Hth') (4 := Hst).
+  - eapply Permutation_Forall; [exact HPm|apply HA].
+  - eapply Permutation_NoDup; [apply Permutation_map; exact HPm|exact Hnd].
+  - rewrite Hnb. eapply Permutation_Forall; [exact HPm|apply HA].
+  - rewrite Hbl. discriminate.
+  - rewrite Hbc. apply HA.
+  - rewrite Hus, Hbl, Hth', sum_N_mid. pose proof (ai_usage _ HA) as H.
+    rewrite Hth, sum_N_mid in H. cbn [map] in *. rewrite sum_N_cons. cbn in *. lia.
+  - intros g _ Hg. rewrite region_ok_B in *. eapply region_okB_mono; [exact Hg|].
+    intros blk0 Hf0. rewrite Hfa. exists blk0. split; auto. split; [lia|auto].
+  - intros r0 s1 Hd _. apply ref_denotes_iff. apply ref_denotes_iff in Hd.
+    eapply ref_den_mono; [exact Hd|]. intros b1 o l blk0 _ Hf0. rewrite Hbl. simpl.
+    destruct (bid blk =? b1) eqn:E.
+    + apply N.eqb_eq in E. exfalso. apply Hnotpub. apply find_block_some in Hf0 as [Hin <-].
+      rewrite E. now apply in_map.
+    + exists blk0. split; auto. split; [lia|auto].
+  - cbn. constructor; [|constructor]. rewrite region_ok_B. unfold region_okB; cbn.
+    split; auto. split; auto. exists blk. rewrite Hfa. split; auto.
+  - cbn. apply FOP_one.
+  - cbn. intros g g' [<-|[]] Hg' _.
+    specialize (Hd_x _ g' (or_introl eq_refl) Hg'). exact Hd_x.
+  - unfold tref; cbn. apply ref_denotes_iff. cbn. split; auto. exists blk.
+    rewrite Hbl. simpl. rewrite N.eqb_refl. split; auto. split; [lia|]. split; [lia|auto].
+  - exact I.
+  - exact I.
+  - reflexivity.
+  - cbn. intros ti s1 r0 k x y _ _ _ _ [<-|[]] Hw. discriminate Hw.
+Qed.
+
+(* ------------------------------------------------------------------ kind 7: the range moves into the key -> string map *)
+
+Lemma ref_denotes_ext c c' r s : c_blocks c' = c_blocks c -> ref_denotes c r s -> ref_denotes c' r s.
+Proof. intros H. rewrite !ref_denotes_iff, H. auto. Qed.
+
+Lemma in_rest_tregions strs l1 l2 g : In g (tregions (l1 ++ l2)) -> In g (rest strs l1 l2).
+Proof.
+  unfold rest, tregions. rewrite flat_map_app. intros H. apply in_or_app. now right.
+Qed.
+
+Lemma K_strs c c' tid t t' s r k :
+  AInv' c -> nth_error (c_threads c) tid = Some t -> c_threads c' = set_nth tid t' (c_threads c) ->
+  t_pc t = PStrs s r k -> t_pc t' = PMap s r k ->
+  c_strs c' = strs_put (mkEntry r s k) (c_strs c) ->
+  c_blocks c' = c_blocks c ->
+  c_next_bid c' = c_next_bid c -> c_bcap c' = c_bcap c ->
+  c_usage c' = c_usage c -> AInv' c'.
+Proof.
+  intros HI Hnth Hth' Hpc Hpc' Hst Hbl Hnb Hbc Hus.
+  destruct (nth_error_split_set _ _ _ Hnth) as (l1 & l2 & Hth & _ & Hset). rewrite Hset in Hth'.
+  clear Hset Hnth.
+  pose proof (ai_base _ HI) as HA.
+  destruct (split_facts _ _ _ _ HA Hth) as (Hreg_t & Hreg_r & Hd_t & Hd_r & Hd_x).
+  destruct t as [p0 cl pr ou], t' as [p0' cl' pr' ou']. cbn [t_pc] in Hpc, Hpc'. subst p0 p0'.
+  pose proof (all_blocks_same _ _ _ _ _ _ Hth Hth' Hbl eq_refl) as Hab.
+  unfold strs_put in Hst. cbn [e_key] in Hst.
+  set (F := filter (fun x => negb (e_key x =? k)) (c_strs c)) in *.
+  cbn [thread_regions t_pc] in Hreg_t, Hd_t, Hd_x.
+  assert (HPm : Permutation (regions c')
+                  (region_of_ref r s true ++ (sregions F ++ tregions l1 ++ tregions l2))).
+  { rewrite regions_split, Hst, Hth'. unfold sregions, tregions.
+    rewrite flat_map_app, flat_map_mid. cbn [flat_map thread_regions t_pc e_ref e_str app].
+    rewrite app_nil_r, <- app_assoc. apply Permutation_app_swap_app. }
+  apply Permutation_sym in HPm.
+  assert (Hsub : forall g, In g (sregions F ++ tregions l1 ++ tregions l2) ->
+                           In g (rest (c_strs c) l1 l2)).
+  { intros g Hg. unfold rest. apply in_app_or in Hg as [Hg|Hg]; apply in_or_app; [left|now right].
+    unfold sregions, F in *. eapply in_flat_map_filter; eauto. }
+  assert (Htref : ref_denotes c' r s).
+  { pose proof (ai_thread_refs _ HA) as H. rewrite Hth in H. apply Forall_mid_in in H as [H _].
+    eapply ref_denotes_ext; eauto. }
+  constructor; [constructor|..].
+  - rewrite Hab. apply HA.
+  - rewrite Hab. apply HA.
+  - rewrite Hab, Hnb. apply HA.
+  - rewrite Hbl. apply HA.
+  - rewrite Hbc. apply HA.
+  - rewrite Hus, Hbl, Hth', sum_N_mid. pose proof (ai_usage _ HA) as H.
+    rewrite Hth, sum_N_mid in H. cbn in *. lia.
+  - eapply Permutation_Forall; [exact HPm|]. rewrite Forall_forall in *.
+    intros g Hg. rewrite region_ok_B, Hab, <- region_ok_B.
+    apply in_app_or in Hg as [Hg|Hg]; [apply Hreg_t, Hg|apply Hreg_r, Hsub, Hg].
+  - eapply FOP_perm; [exact region_disjoint_sym|exact HPm|]. apply FOP_app.
+    split; [exact Hd_t|]. split; [|intros x y Hx Hy; apply Hd_x; auto].
+    unfold rest in Hd_r. apply FOP_app in Hd_r as (HA1 & HA2 & HA3). apply FOP_app.
+    split; [apply FOP_flat_map_filter; exact HA1|]. split; [exact HA2|].
+    intros x y Hx Hy. apply HA3; auto. unfold sregions, F in *. eapply in_flat_map_filter; eauto.
+  - rewrite Hst. apply Forall_app. split.
+    + pose proof (ai_strs_denote _ HA) as H. rewrite Forall_forall in *. intros e He.
+      apply filter_In in He as [He _]. eapply ref_denotes_ext; eauto.
+    + constructor; [|constructor]. exact Htref.
+  - rewrite Hth'. pose proof (ai_thread_refs _ HA) as H. rewrite Hth in H.
+    apply Forall_mid with (t := {| t_pc := PStrs s r k; t_call := cl; t_prog := pr; t_outs := ou |}).
+    + eapply Forall_impl; [|exact H]. intros a Ha. eapply tref_ext; eauto.
+    + exact Htref.
+  - rewrite Hth'. pose proof (ai_store_pcs _ HA) as H. rewrite Hth in H.
+    eapply Forall_mid; eauto. exact I.
+  - rewrite Hth'. pose proof (ai_spc _ HI) as H. rewrite Hth in H.
+    eapply Forall_mid; eauto. exact I.
+  - intros x y Hx Hy Hw. rewrite Hth' in Hx, Hy.
+    apply in_tregions_mid in Hy as [Hy|Hy]; [destruct Hy|].
+    apply in_pmap_mid in Hx as [Hx|Hx].
+    + cbn [pmap_regions t_pc] in Hx. apply Hd_x; auto. now apply in_rest_tregions.
+    + apply (ai_pmap _ HI); auto; rewrite Hth.
+      * apply in_pmap_mid. now right.
+      * apply in_tregions_mid. now right.
+Qed.
+
+(* ------------------------------------------------------------------ the main theorem *)
+
+Lemma ref_denotes_empty c : ref_denotes c REmpty [].
+Proof. apply ref_denotes_iff. reflexivity. Qed.
+
+Lemma ref_denotes_static c a s : ref_denotes c (RStatic a s) s.
+Proof. apply ref_denotes_iff. reflexivity. Qed.
+
+(* discharge a neutral step: everything but the arithmetic is by computation *)
+Ltac k1 HI Hnth :=
+  eapply K1n with (1 := HI) (2 := Hnth);
+  [ reflexivity | reflexivity | reflexivity | reflexivity
+  | cbn; try assumption; try lia
+  | cbn; try lia
+  | reflexivity
+  | cbn; auto
+  | reflexivity
+  | unfold tref; cbn; auto using ref_denotes_empty, ref_denotes_static
+  | unfold tpcs; cbn; auto; try discriminate
+  | unfold tspc, spc_ok; cbn; auto; try lia;
+    try (split; [lia|intros; try discriminate; try reflexivity; try lia]) ].
+
+Section Proofs.
+  Variable shard_of : str -> N.
+  Variable keycap : N.
+  Notation step := (step shard_of keycap).
+  Notation reachable := (reachable shard_of keycap).
+
+  Lemma store_step_AInv' c tid t s p ch :
+    AInv' c -> nth_error (c_threads c) tid = Some t -> t_pc t = PStore s p ->
+    AInv' (store_step true c tid t s p ch).
+  Proof.
+    intros HI Hnth Hpc.
+    pose proof (ai_base _ HI) as HA.
+    destruct (nth_error_split_set _ _ _ Hnth) as (l1 & l2 & Hth & _ & _).
+    assert (Hs : s <> []).
+    { pose proof (ai_store_pcs _ HA) as H. rewrite Hth in H. apply Forall_mid_in in H as [H _].
+      now rewrite Hpc in H. }
+    assert (Hsp : spc_ok s p).
+    { pose proof (ai_spc _ HI) as H. rewrite Hth in H. apply Forall_mid_in in H as [H _].
+      unfold tspc in H. now rewrite Hpc in H. }
+    pose proof (slen_pos _ Hs) as Hlen.
+    pose proof (ai_bcap _ HA) as Hbc.
+    clear l1 l2 Hth.
+    destruct t as [p0 cl pr ou]. cbn [t_pc] in Hpc. subst p0.
+    unfold store_step.
+    destruct p as [|b rs|b seen tries rs|b off| |req k next|cur req k next|next|next usage|next|cap|blk|blk seen];
+      cbv zeta; cbn in Hsp.
+    - (* SHead *) destruct (map bid (c_blocks c)); k1 HI Hnth.
+    - (* SLen *) destruct (find_block b (c_blocks c)); k1 HI Hnth.
+    - (* SCas *)
+      destruct (find_block b (c_blocks c)) as [blk|] eqn:Hf; [|destruct rs; k1 HI Hnth].
+      destruct ((tries <? 100)%nat && (seen + slen s <=? bcap blk)) eqn:E1; [|destruct rs; k1 HI Hnth].
+      destruct ((bused blk =? seen) && negb ch) eqn:E2; [|k1 HI Hnth].
+      apply andb_true_iff in E1 as [_ E1]. apply N.leb_le in E1.
+      apply andb_true_iff in E2 as [E2 _]. apply N.eqb_eq in E2.
+      eapply K_cas with (1 := HI) (2 := Hnth) (blk := blk); try reflexivity; eauto.
+    - (* SCopy *)
+      destruct (find_block b (c_blocks c)) as [blk|] eqn:Hf; [|k1 HI Hnth].
+      eapply K_copy with (1 := HI) (2 := Hnth) (blk := blk); try reflexivity; eauto.
+    - (* SBcap *)
+      destruct (2 * c_bcap c <? slen s) eqn:E; [|apply N.ltb_ge in E]; k1 HI Hnth.
+    - (* SAllocLoad *) k1 HI Hnth.
+    - (* SAllocCas *)
+      destruct Hsp as [Hsp1 Hsp2].
+      destruct (c_limit c <? cur + req) eqn:E1; [k1 HI Hnth|].
+      destruct ((c_usage c =? cur) && negb ch) eqn:E2; [|k1 HI Hnth].
+      apply andb_true_iff in E2 as [E2 _]. apply N.eqb_eq in E2.
+      destruct k.
+      + k1 HI Hnth.
+      + destruct (req =? 0) eqn:E3; [apply N.eqb_eq in E3|]; k1 HI Hnth.
+      + specialize (Hsp2 eq_refl). k1 HI Hnth.
+    - (* SUsage2 *) k1 HI Hnth.
+    - (* SLimit2 *)
+      destruct (c_limit c <? usage + next) eqn:E1.
+      + destruct (c_limit c - usage <? slen s) eqn:E2; [|apply N.ltb_ge in E2]; k1 HI Hnth.
+      + k1 HI Hnth.
+    - (* SBcapStore *) k1 HI Hnth.
+    - (* SNewBlock *)
+      destruct (push_slice (fresh_block (c_next_bid c) cap) s) as [blk r] eqn:Hp.
+      eapply K_new with (1 := HI) (2 := Hnth) (blk := blk); try reflexivity; eauto.
+    - (* SPushLoad *) k1 HI Hnth.
+    - (* SPushCas *)
+      destruct (opt_N_eqb (head_id c) seen && negb ch); [|k1 HI Hnth].
+      eapply K_push with (1 := HI) (2 := Hnth); try reflexivity.
+  Qed.
+
+  Theorem step_AInv' c tid ch c' : AInv' c -> step c tid ch = Some c' -> AInv' c'.
+  Proof.
+    intros HI Hstep. unfold Conc.step, step_gen in Hstep.
+    destruct (nth_error (c_threads c) tid) as [t|] eqn:Hnth; [|discriminate].
+    destruct (blocked shard_of c tid (t_pc t)); [discriminate|].
+    pose proof (ai_base _ HI) as HA.
+    destruct (nth_error_split_set _ _ _ Hnth) as (l1 & l2 & Hth & _ & _).
+    assert (Htref : tref c t).
+    { pose proof (ai_thread_refs _ HA) as H. rewrite Hth in H. apply Forall_mid_in in H as [H _].
+      exact H. }
+    pose proof (ai_bcap _ HA) as Hbc.
+    clear l1 l2 Hth.
+    destruct (t_pc t) as [|cl|s|s|s p|s r|s r k|s r k|addr s|addr s|k|m|] eqn:Hpc.
+    all: destruct t as [p0 cl0 pr ou]; cbn [t_pc t_prog t_call t_outs] in *; subst p0;
+         unfold tref in Htref; cbn [t_pc] in Htref.
+    - (* PIdle *)
+      destruct pr as [|cl1 pr]; [discriminate|]. injection Hstep as <-.
+      destruct cl1; k1 HI Hnth.
+    - (* PFast *)
+      destruct cl as [s|addr s|s|k|m|]; try discriminate; injection Hstep as <-;
+        destruct (map_get c s); k1 HI Hnth.
+    - (* PLock *) injection Hstep as <-. k1 HI Hnth.
+    - (* PFind *)
+      injection Hstep as <-. destruct (map_get c s); [k1 HI Hnth|]. destruct s; k1 HI Hnth.
+    - (* PStore *)
+      injection Hstep as <-. now apply store_step_AInv'.
+    - (* PKeyAdd *)
+      injection Hstep as <-. destruct (try_key keycap (c_key c)); k1 HI Hnth.
+    - (* PStrs *)
+      injection Hstep as <-. eapply K_strs with (1 := HI) (2 := Hnth); reflexivity.
+    - (* PMap *) injection Hstep as <-. k1 HI Hnth.
+    - (* PEntry *) injection Hstep as <-. destruct (map_get c s); k1 HI Hnth.
+    - (* PSKeyAdd *)
+      injection Hstep as <-. destruct (try_key keycap (c_key c)); k1 HI Hnth.
+    - (* PResolve *) injection Hstep as <-. k1 HI Hnth.
+    - (* PSetLimit *) injection Hstep as <-. k1 HI Hnth.
+    - (* PUsage *) injection Hstep as <-. k1 HI Hnth.
+  Qed.
+End Proofs.
+
+(* ------------------------------------------------------------------ what a step can change (frame facts) *)
+
+(* how the published block list can change in one step: not at all, one block updated in
+   place (same identity, same capacity), or one block pushed in front *)
+Definition blocks_rel (c c' : cstate) : Prop :=
+  c_blocks c' = c_blocks c \/
+  (exists b' blk, c_blocks c' = set_block b' (c_blocks c) /\
+                  find_block (bid b') (c_blocks c) = Some blk /\ bcap b' = bcap blk) \/
+  (exists blk, c_blocks c' = blk :: c_blocks c).
+
+Definition frame (c c' : cstate) (t t' : thread) : Prop :=
+  ((c_strs c' = c_strs c /\ blocks_rel c c') \/
+   (c_blocks c' = c_blocks c /\ exists e0, c_strs c' = strs_put e0 (c_strs c))) /\
+  (c_usage c' = c_usage c \/ (c_usage c <= c_usage c' /\ c_usage c' <= c_limit c)) /\
+  (c_limit c' = c_limit c \/ exists m, t_pc t = PSetLimit m) /\
+  ((t_prog t' = t_prog t /\ forall m, t_pc t' <> PSetLimit m) \/
+   (exists cl, t_prog t = cl :: t_prog t' /\ t_pc t' = pc_of_call cl)).
+
+Ltac fr_tail :=
+  split; [left; reflexivity|
+  split; [left; reflexivity|
+  left; split; [reflexivity|intros; discriminate]]].
+
+Ltac fr := split; [left; split; [reflexivity|left; reflexivity]|fr_tail].
+
+Ltac frx := eexists; split; [reflexivity|fr].
+
+Ltac frs := eexists; split; [reflexivity|]; split; [reflexivity|fr].
+
+Lemma store_step_frame c tid t s p ch :
+  t_pc t = PStore s p ->
+  exists t', c_threads (store_step true c tid t s p ch) = set_nth tid t' (c_threads c) /\
+             frame c (store_step true c tid t s p ch) t t'.
+Proof.
+  intros Hpc. unfold store_step.
+  destruct p as [|b rs|b seen tries rs|b off| |req k next|cur req k next|next|next usage|next|cap|blk|blk seen];
+    cbv zeta.
+  - destruct (map bid (c_blocks c)); frx.
+  - destruct (find_block b (c_blocks c)); frx.
+  - destruct (find_block b (c_blocks c)) as [blk|] eqn:Hf; [|destruct rs; frx].
+    destruct ((tries <? 100)%nat && (seen + slen s <=? bcap blk)); [|destruct rs; frx].
+    destruct ((bused blk =? seen) && negb ch); [|frx].
+    eexists; split; [reflexivity|]. split; [|fr_tail].
+    left. split; [reflexivity|]. right. left. eexists; exists blk. split; [reflexivity|].
+    cbn. apply find_block_some in Hf as Hf'. destruct Hf' as [_ ->]. auto.
+  - destruct (find_block b (c_blocks c)) as [blk|] eqn:Hf; [|frx].
+    eexists; split; [reflexivity|]. split; [|fr_tail].
+    left. split; [reflexivity|]. right. left. eexists; exists blk. split; [reflexivity|].
+    cbn. apply find_block_some in Hf as Hf'. destruct Hf' as [_ ->]. auto.
+  - destruct (2 * c_bcap c <? slen s); frx.
+  - frx.
+  - destruct (c_limit c <? cur + req) eqn:E1; [frx|]. apply N.ltb_ge in E1.
+    destruct ((c_usage c =? cur) && negb ch) eqn:E2; [|frx].
+    apply andb_true_iff in E2 as [E2 _]. apply N.eqb_eq in E2.
+    assert (Hu : c_usage c <= cur + req /\ cur + req <= c_limit c) by lia.
+    destruct k; [|destruct (req =? 0)|];
+      (eexists; split; [reflexivity|];
+       split; [left; split; [reflexivity|left; reflexivity]|];
+       split; [right; exact Hu|];
+       split; [left; reflexivity|left; split; [reflexivity|intros; discriminate]]).
+  - frx.
+  - destruct (c_limit c <? usage + next); [destruct (c_limit c - usage <? slen s)|]; frx.
+  - frx.
+  - destruct (push_slice (fresh_block (c_next_bid c) cap) s) as [blk r]. frx.
+  - frx.
+  - destruct (opt_N_eqb (head_id c) seen && negb ch); [|frx].
+    eexists; split; [reflexivity|]. split; [|fr_tail].
+    left. split; [reflexivity|]. right. right. exists blk. reflexivity.
+Qed.
+
+Section Frame.
+  Variable shard_of : str -> N.
+  Variable keycap : N.
+  Notation step := (step shard_of keycap).
+
+  Lemma step_frame c tid ch c' :
+    step c tid ch = Some c' ->
+    exists t t', nth_error (c_threads c) tid = Some t /\
+                 c_threads c' = set_nth tid t' (c_threads c) /\ frame c c' t t'.
+  Proof.
+    intros Hstep. unfold Conc.step, step_gen in Hstep.
+    destruct (nth_error (c_threads c) tid) as [t|] eqn:Hnth; [|discriminate].
+    destruct (blocked shard_of c tid (t_pc t)); [discriminate|].
+    exists t.
+    destruct (t_pc t) as [|cl|s|s|s p|s r|s r k|s r k|addr s|addr s|k|m|] eqn:Hpc.
+    - destruct (t_prog t) as [|cl1 pr] eqn:Hpr; [discriminate|]. injection Hstep as <-.
+      eexists. split; [reflexivity|]. split; [reflexivity|].
+      split; [left; split; [reflexivity|left; reflexivity]|].
+      split; [left; reflexivity|]. split; [left; reflexivity|].
+      right. exists cl1. split; [exact Hpr|reflexivity].
+    - destruct cl as [s|addr s|s|k|m|]; try discriminate; injection Hstep as <-;
+        destruct (map_get c s); frs.
+    - injection Hstep as <-. frs.
+    - injection Hstep as <-. destruct (map_get c s); [|destruct s];
+        frs.
+    - injection Hstep as <-. destruct (store_step_frame c tid t s p ch Hpc) as (t' & H1 & H2).
+      exists t'. auto.
+    - injection Hstep as <-. destruct (try_key keycap (c_key c));
+        frs.
+    - injection Hstep as <-. eexists; split; [reflexivity|].
+      split; [reflexivity|]. split; [|fr_tail].
+      right. split; [reflexivity|]. eexists. reflexivity.
+    - injection Hstep as <-. frs.
+    - injection Hstep as <-. destruct (map_get c s); frs.
+    - injection Hstep as <-. destruct (try_key keycap (c_key c));
+        frs.
+    - injection Hstep as <-. frs.
+    - injection Hstep as <-. eexists; split; [reflexivity|].
+      split; [reflexivity|].
+      split; [left; split; [reflexivity|left; reflexivity]|].
+      split; [left; reflexivity|]. split; [right; eauto|].
+      left; split; [reflexivity|intros; discriminate].
+    - injection Hstep as <-. frs.
+  Qed.
+End Frame.
+
+(* ------------------------------------------------------------------ the initial state *)
+
+Lemma flat_map_idle {B} (f : thread -> list B) (progs : list (list call)) :
+  (forall p, f (mkThread PIdle CUsage p []) = []) ->
+  flat_map f (map (fun p => mkThread PIdle CUsage p []) progs) = [].
+Proof. intros H. induction progs as [|p progs IH]; simpl; auto. rewrite H. exact IH. Qed.
+
+Lemma Forall_idle (P : thread -> Prop) (progs : list (list call)) :
+  (forall p, P (mkThread PIdle CUsage p [])) ->
+  Forall P (map (fun p => mkThread PIdle CUsage p []) progs).
+Proof.
+  intros H. apply Forall_forall. intros t Ht. apply in_map_iff in Ht as (p & <- & _). apply H.
+Qed.
+
+Lemma sum_inflight_idle ts :
+  Forall (fun t => t_pc t = PIdle) ts -> sum_N (map inflight_cap ts) = 0.
+Proof.
+  induction 1 as [|t ts Ht _ IH]; [reflexivity|]. cbn [map]. rewrite sum_N_cons, IH.
+  unfold inflight_cap. now rewrite Ht.
+Qed.
+
+Theorem init_AInv' cap lim progs : 0 < cap -> AInv' (init cap lim progs).
+Proof.
+  intros Hc.
+  assert (Hib : inflight_blocks (init cap lim progs) = []) by (apply flat_map_idle; reflexivity).
+  assert (Hab : all_blocks (init cap lim progs) = [fresh_block 0 cap])
+    by (unfold all_blocks; rewrite Hib; reflexivity).
+  assert (Htr : tregions (c_threads (init cap lim progs)) = []) by (apply flat_map_idle; reflexivity).
+  assert (Hreg : regions (init cap lim progs) = []) by (rewrite regions_split, Htr; reflexivity).
+  constructor; [constructor|..].
+  - rewrite Hab. constructor; [now apply fresh_block_ok|constructor].
+  - rewrite Hab. simpl. constructor; [intros []|constructor].
+  - rewrite Hab. constructor; [simpl; lia|constructor].
+  - discriminate.
+  - exact Hc.
+  - cbn [c_usage c_blocks c_threads init]. rewrite sum_inflight_idle.
+    + cbn [map bcap fresh_block]. rewrite sum_N_cons. unfold sum_N; simpl. lia.
+    + apply Forall_idle. reflexivity.
+  - rewrite Hreg. constructor.
+  - rewrite Hreg. constructor.
+  - constructor.
+  - apply Forall_idle. intros; exact I.
+  - apply Forall_idle. intros; exact I.
+  - apply Forall_idle. intros; exact I.
+  - intros x y Hx. cbn [c_threads init] in Hx. rewrite flat_map_idle in Hx; [destruct Hx|reflexivity].
+Qed.
+
+Theorem init_AInv cap lim progs : 0 < cap -> AInv (init cap lim progs).
+Proof. intros H. apply ai_base. now apply init_AInv'. Qed.
+
+Lemma AInv'_AInv c : AInv' c -> AInv c.
+Proof. apply ai_base. Qed.
+
+(* ------------------------------------------------------------------ small list facts for the corollaries *)
+
+Lemma set_block_map_bid b' bs : map bid (set_block b' bs) = map bid bs.
+Proof.
+  induction bs as [|a bs IH]; simpl; auto. destruct (bid a =? bid b') eqn:E; simpl.
+  - apply N.eqb_eq in E. congruence.
+  - now rewrite IH.
+Qed.
+
+Lemma set_block_map_bcap b' bs blk :
+  find_block (bid b') bs = Some blk -> bcap b' = bcap blk ->
+  map bcap (set_block b' bs) = map bcap bs.
+Proof.
+  induction bs as [|a bs IH]; simpl; auto. destruct (bid a =? bid b') eqn:E; simpl; intros H Hc.
+  - inversion H; subst. congruence.
+  - now rewrite IH.
+Qed.
+
+Lemma read_ext c c' r : c_blocks c' = c_blocks c -> read (as_arena c') r = read (as_arena c) r.
+Proof. intros H. destruct r; simpl; auto. now rewrite H. Qed.
+
+Definition no_setlimit (c : cstate) : Prop :=
+  Forall (fun t => (forall m, t_pc t <> PSetLimit m) /\
+                   Forall (fun cl => forall m, cl <> CSetLimit m) (t_prog t)) (c_threads c).
+
+Section Corollaries.
+  Variable shard_of : str -> N.
+  Variable keycap : N.
+  Notation step := (step shard_of keycap).
+  Notation reachable := (reachable shard_of keycap).
+
+  (* [step_AInv'] under the name the properties table uses: the invariant that is preserved
+     is the strengthened one, and it implies [AInv] *)
+  Theorem step_AInv c tid ch c' :
+    AInv' c -> step c tid ch = Some c' -> AInv' c' /\ AInv c'.
+  Proof. intros H Hs. pose proof (step_AInv' shard_of keycap _ _ _ _ H Hs) as H'. split; [exact H'|apply H']. Qed.
+
+  Theorem reachable_AInv' c0 c : AInv' c0 -> reachable c0 c -> AInv' c.
+  Proof.
+    intros H0 Hr. induction Hr as [|c c' tid ch _ IH Hs]; auto.
+    eapply step_AInv'; eauto.
+  Qed.
+
+  Theorem reachable_AInv cap lim progs c :
+    0 < cap -> reachable (init cap lim progs) c -> AInv c.
+  Proof.
+    intros Hc Hr. apply ai_base. eapply reachable_AInv'; eauto. now apply init_AInv'.
+  Qed.
+
+  (* ---------------- C05: concurrent storage integrity ---------------- *)
+
+  (* every owned byte range (stored strings, ranges reserved or being filled by threads,
+     strings inside unpublished blocks) lies in the used part of a block, and no two overlap *)
+  Theorem C05_exclusive cap lim progs c :
+    0 < cap -> reachable (init cap lim progs) c ->
+    ForallOrdPairs region_disjoint (regions c) /\ Forall (region_ok c) (regions c).
+  Proof.
+    intros Hc Hr. pose proof (reachable_AInv _ _ _ _ Hc Hr) as HA. split; apply HA.
+  Qed.
+
+  (* a stored string reads back as the string it was stored for *)
+  Theorem C05_no_tear cap lim progs c :
+    0 < cap -> reachable (init cap lim progs) c ->
+    forall e, In e (c_strs c) -> read (as_arena c) (e_ref e) = Some (e_str e).
+  Proof.
+    intros Hc Hr e He. pose proof (reachable_AInv _ _ _ _ Hc Hr) as HA.
+    pose proof (ai_strs_denote _ HA) as H. rewrite Forall_forall in H. apply (H e He).
+  Qed.
+
+  (* an entry can only be replaced by an insert under the same key *)
+  Theorem step_keeps_entries c tid ch c' :
+    step c tid ch = Some c' ->
+    forall e, In e (c_strs c) ->
+              In e (c_strs c') \/ exists e', In e' (c_strs c') /\ e_key e' = e_key e.
+  Proof.
+    intros Hs e He. destruct (step_frame _ _ _ _ _ _ Hs) as (t & t' & _ & _ & Hf & _).
+    destruct Hf as [[Hst _]|[_ [e0 Hst]]]; rewrite Hst; [now left|].
+    unfold strs_put. destruct (e_key e =? e_key e0) eqn:E.
+    - right. exists e0. split; [apply in_or_app; right; now left|].
+      apply N.eqb_eq in E. now symmetry.
+    - left. apply in_or_app. left. apply filter_In. split; auto. now rewrite E.
+  Qed.
+
+  (* the bytes of a stored string never change *)
+  Theorem step_keeps_bytes c tid ch c' :
+    AInv' c -> step c tid ch = Some c' ->
+    forall e, In e (c_strs c) -> read (as_arena c') (e_ref e) = read (as_arena c) (e_ref e).
+  Proof.
+    intros HI Hs e He. destruct (step_frame _ _ _ _ _ _ Hs) as (t & t' & _ & _ & Hf & _).
+    destruct Hf as [[Hst _]|[Hbl _]]; [|now apply read_ext].
+    pose proof (step_AInv' shard_of keycap _ _ _ _ HI Hs) as HI'.
+    pose proof (ai_strs_denote _ (ai_base _ HI)) as H. rewrite Forall_forall in H.
+    pose proof (ai_strs_denote _ (ai_base _ HI')) as H'. rewrite Forall_forall in H'.
+    rewrite <- Hst in He. destruct (H' e He) as [_ ->]. rewrite Hst in He.
+    destruct (H e He) as [_ ->]. reflexivity.
+  Qed.
+
+  (* no block is ever removed from the published list; identities and capacities are stable *)
+  Theorem C05_no_lost_block c tid ch c' :
+    step c tid ch = Some c' ->
+    exists pre, (length pre <= 1)%nat /\
+                map bid (c_blocks c') = map bid pre ++ map bid (c_blocks c) /\
+                map bcap (c_blocks c') = map bcap pre ++ map bcap (c_blocks c).
+  Proof.
+    intros Hs. destruct (step_frame _ _ _ _ _ _ Hs) as (t & t' & _ & _ & Hf & _).
+    destruct Hf as [[_ [Hb|[(b' & blk & Hb & Hfb & Hcap)|[blk Hb]]]]|[Hb _]]; rewrite Hb.
+    - exists []. simpl. auto.
+    - exists []. simpl. rewrite set_block_map_bid. erewrite set_block_map_bcap; eauto.
+    - exists [blk]. simpl. auto.
+    - exists []. simpl. auto.
+  Qed.
+
+  (* ---------------- C09: the memory limit under concurrency ---------------- *)
+
+  (* with no call in flight the reported usage is exactly the capacity of the blocks *)
+  Theorem C09_accounting_quiescent c :
+    AInv c -> quiescent c -> c_usage c = sum_N (map bcap (c_blocks c)).
+  Proof.
+    intros HA Hq. rewrite (ai_usage _ HA), sum_inflight_idle by exact Hq. lia.
+  Qed.
+
+  Lemma no_setlimit_step c tid ch c' :
+    no_setlimit c -> step c tid ch = Some c' ->
+    no_setlimit c' /\ c_limit c' = c_limit c /\ c_usage c' <= N.max (c_usage c) (c_limit c).
+  Proof.
+    intros Hn Hs. destruct (step_frame _ _ _ _ _ _ Hs) as (t & t' & Hnth & Hth' & _ & Hu & Hl & Hp).
+    destruct (nth_error_split_set _ _ _ Hnth) as (l1 & l2 & Hth & _ & Hset).
+    unfold no_setlimit in *. rewrite Hset in Hth'. rewrite Hth in Hn.
+    pose proof (Forall_mid_in _ _ _ _ Hn) as [[Ht1 Ht2] _].
+    split; [|split].
+    - rewrite Hth'. eapply Forall_mid; [exact Hn|].
+      destruct Hp as [[Hp1 Hp2]|(cl & Hp1 & Hp2)].
+      + split; auto. now rewrite Hp1.
+      + rewrite Hp1 in Ht2. inversion Ht2 as [|? ? Hcl Hrest]; subst. split; auto.
+        intros m. rewrite Hp2. destruct cl; try discriminate. intros Heq. inversion Heq; subst.
+        now apply (Hcl m).
+    - destruct Hl as [Hl|[m Hl]]; auto. now apply Ht1 in Hl.
+    - lia.
+  Qed.
+
+  (* while nobody changes the limit: usage never exceeds max(limit, usage at the start) *)
+  Theorem C09_cap c0 c :
+    no_setlimit c0 -> reachable c0 c ->
+    c_limit c = c_limit c0 /\ c_usage c <= N.max (c_usage c0) (c_limit c0).
+  Proof.
+    intros Hn Hr.
+    assert (H : no_setlimit c /\ c_limit c = c_limit c0 /\ c_usage c <= N.max (c_usage c0) (c_limit c0)).
+    { induction Hr as [|c c' tid ch _ IH Hs]; [split; [auto|split; [auto|lia]]|].
+      destruct IH as (IH1 & IH2 & IH3).
+      destruct (no_setlimit_step _ _ _ _ IH1 Hs) as (H1 & H2 & H3).
+      split; auto. split; [congruence|]. rewrite IH2 in H3. lia. }
+    tauto.
+  Qed.
+
+  (* With set_memory_limits racing: every step that increases the usage counter keeps it
+     under the limit value in force AT THAT STEP (the comparison and the compare-and-swap of
+     allocate_memory are one atomic event on memory_usage, the load of max_memory_usage is
+     part of it in the model).  Nothing stronger holds for two separate atomics: a thread may
+     lower the limit right after another thread's grant, so "usage <= limit" is not an
+     invariant when the limit is lowered concurrently. *)
+  Theorem C09_grant_admissible_partial c tid ch c' :
+    step c tid ch = Some c' -> c_usage c < c_usage c' -> c_usage c' <= c_limit c.
+  Proof.
+    intros Hs Hlt. destruct (step_frame _ _ _ _ _ _ Hs) as (t & t' & _ & _ & _ & Hu & _).
+    destruct Hu as [Hu|[_ Hu]]; [lia|exact Hu].
+  Qed.
+End Corollaries.
+
+(* ------------------------------------------------------------------ the unrepaired allocate_memory *)
+
+Definition ex_sh (s : str) : N := match s with x :: _ => x | [] => 0 end.
+Definition ex_c0 : cstate := init 1 4 [[CIntern [97;98]]; [CIntern [99;100]]].
+Definition ex_sched : list (nat * bool) := concat (repeat [(0%nat,false);(1%nat,false)] 40).
+
+(* Two threads in lock step, limit 4.  The code before the F2 fix (check against a value
+   loaded earlier, then an unconditional fetch_add) lets both grants through: usage 5 > 4.
+   The repaired fetch_update refuses the second one. *)
+Example C09_legacy_refuted :
+  (let c := run_sched_gen ex_sh 4294967295 false ex_c0 ex_sched in
+   c_usage c = 5 /\ c_limit c = 4 /\ c_limit c < c_usage c) /\
+  (let c := run_sched_gen ex_sh 4294967295 true ex_c0 ex_sched in
+   c_usage c = 3 /\ c_limit c = 4).
+Proof. vm_compute. repeat split. Qed.
+
+(* ------------------------------------------------------------------ why AInv alone is not inductive *)
+
+(* (1) AInv says nothing about the sizes a store program counter carries: a state with a
+   thread at SAllocCas _ 5 ADoubled 7 satisfies AInv, its step grants 5 but books 7. *)
+Example AInv_not_inductive_sizes :
+  let c := mkC [fresh_block 0 1] 1 1 100 1 [] [] 0 []
+               [mkThread (PStore [7] (SAllocCas 1 5 ADoubled 7)) CUsage [] []] in
+  AInv c /\ exists c', Conc.step (fun _ => 0) 10 c 0%nat false = Some c' /\ ~ AInv c'.
+Proof.
+  cbv zeta. split.
+  - constructor; cbn.
+    + constructor; [apply fresh_block_ok; lia|constructor].
+    + constructor; [intros []|constructor].
+    + constructor; [simpl; lia|constructor].
+    + discriminate.
+    + lia.
+    + lia.
+    + constructor.
+    + constructor.
+    + constructor.
+    + constructor; [exact I|constructor].
+    + constructor; [discriminate|constructor].
+  - eexists. split; [vm_compute; reflexivity|]. intros H.
+    pose proof (ai_usage _ H) as Hu. vm_compute in Hu. discriminate.
+Qed.
+
+(* (2) the reference of a thread at PMap is protected by AInv only through the key -> string
+   entry it has just inserted; if that entry is not there (it can only disappear through an
+   insert under the same key, which JInv excludes), a range reserved over it may be filled. *)
+Example AInv_not_inductive_pmap :
+  let c := mkC [mkBlock 0 1 1 [1]] 1 1 100 1 [] [] 1 []
+               [mkThread (PMap [1] (RArena 0 0 1) 0) CUsage [] [];
+                mkThread (PStore [2] (SCopy 0 0)) CUsage [] []] in
+  AInv c /\ exists c', Conc.step (fun _ => 0) 10 c 1%nat false = Some c' /\ ~ AInv c'.
+Proof.
+  cbv zeta. split.
+  - constructor; cbn.
+    + constructor; [unfold block_ok; simpl; lia|constructor].
+    + constructor; [intros []|constructor].
+    + constructor; [simpl; lia|constructor].
+    + discriminate.
+    + lia.
+    + lia.
+    + constructor; [|constructor]. split; [vm_compute; reflexivity|]. split; [reflexivity|].
+      eexists. split; [reflexivity|]. split; [vm_compute; discriminate|discriminate].
+    + constructor; constructor.
+    + constructor.
+    + constructor; [|constructor; [exact I|constructor]].
+      split; [|reflexivity]. split; [lia|]. eexists. split; [reflexivity|]. vm_compute. discriminate.
+    + constructor; [exact I|constructor; [discriminate|constructor]].
+  - eexists. split; [vm_compute; reflexivity|]. intros H.
+    pose proof (ai_thread_refs _ H) as Hr. apply Forall_inv in Hr. destruct Hr as [_ Hr].
+    vm_compute in Hr. discriminate.
+Qed.
+
+Print Assumptions init_AInv'.
+Print Assumptions init_AInv.
+Print Assumptions step_AInv'.
+Print Assumptions step_AInv.
+Print Assumptions reachable_AInv'.
+Print Assumptions reachable_AInv.
+Print Assumptions C05_exclusive.
+Print Assumptions C05_no_tear.
+Print Assumptions step_keeps_entries.
+Print Assumptions step_keeps_bytes.
+Print Assumptions C05_no_lost_block.
+Print Assumptions C09_accounting_quiescent.
+Print Assumptions no_setlimit_step.
+Print Assumptions C09_cap.
+Print Assumptions C09_grant_admissible_partial.
+Print Assumptions C09_legacy_refuted.
+Print Assumptions AInv_not_inductive_sizes.
+Print Assumptions AInv_not_inductive_pmap.
